@@ -2,7 +2,7 @@
 # run every registered check (quick tier by default) and summarise; usage: tools/run_all.sh [quick|thorough] [seed]
 cd "$(dirname "$0")/.."
 TIER=${1:-quick}; SEED=${2:-0}; D=/tmp/run_all_$$; mkdir -p $D
-for id in C01 C02 C03 C04 C05 C06 C07 C08 C09 C10 C11 C12 C13 C14 C15 C16 C17 C18 C19 C20; do
+for id in ${IDS:-C01 C02 C03 C04 C05 C06 C07 C08 C09 C10 C11 C12 C13 C14 C15 C16 C17 C18 C19 C20}; do
   s=$(date +%s)
   VERIF_SEED=$SEED ./check $id --tier $TIER > $D/$id.log 2>&1
   rc=$?
